@@ -57,7 +57,7 @@ TypeBitsOf(dt) == IF dt = "uint8" THEN 8 ELSE IF dt = "uint16" THEN 16
                   ELSE IF dt = "uint32" THEN 32 ELSE 64
 OvInType(c) ==
   \/ c.method # "average" \/ c.pad # "const" \/ c.kind = "float"
-  \/ LET v == Val(c, c.ov) IN v[1] = 0 /\ Len(v[2]) <= TypeBitsOf(c.dtype)
+  \/ LET v == Val(c, c.ov) IN v[1] = 0 /\ Len(ShiftR(v[2], UBits(c))) <= TypeBitsOf(c.dtype)
 
 \* ---- class of a deviation from the exact mean (known-finding matching only) -
 SNeg(a) == SCanon(<<1 - a[1], a[2]>>)
